@@ -7,7 +7,22 @@ import PkVerif.Gen.C16
 Property theorems only.  `Pk.JsonSign.*` models pkg/jsonsign (sign.go, verify.go) and the part of
 encoding/json it relies on; OpenPGP is the abstract `Scheme` below: its correctness and
 unforgeability are hypothesis FIELDS of the structure (never axioms), so every theorem reads
-"for every signature scheme with these properties, for every document …".
+"for every signature scheme with these properties, for every environment, for every document …".
+
+* `C16_gen_*`                        the literals of the source are those of the model (regenerated facts)
+* `C16_last_separator_is_the_appended_one`, `C16_split_signed`, `C16_sign_then_split`
+                                     BP/BPJ/BS of a signed document are exactly what was signed, for ALL payloads
+* `C16_signed_doc_is_json_with_original_fields`, `C16_signed_doc_lookup`
+                                     the signed document is JSON: the original members, then camliSig
+* `C16_sign_succeeds`, `C16_sign_brace_check_redundant`
+                                     Sign succeeds on every valid object; its `}` test never fires
+* `C16_sign_then_verify` (+ `C16_unversioned_signed_doc_rejected`: why its guard is needed)
+* `C16_verify_sound`                 acceptance ⇒ the named key signed exactly BP
+* `C16_payload_or_signer_change_rejected`, `C16_accepted_payload_is_the_signed_one`
+* `C16_witness_*` and the `example`s the hypotheses are satisfiable: a concrete scheme, environment and
+                                     documents (with a separator look-alike inside the payload)
+
+No defect of perkeep was found for this property: nothing here is `_partial`.
 -/
 namespace Pk.JsonSign
 open Pk
@@ -181,6 +196,24 @@ theorem C16_sign_brace_check_redundant (E : Env S) (unsigned : Bytes) :
                 · split at he <;> simp at he
                 · simp at he
               · simp
+
+/-- **Sign succeeds on every valid object**: if the trimmed input is a JSON object whose
+`camliSigner` is a blobref string, the fetcher has that public key, the EntityFetcher its secret key
+and the library's armored signature has the usual shape, `Sign` returns the assembled document –
+no other condition on the object (any further keys, nesting, unicode, white space, look-alikes). -/
+theorem C16_sign_succeeds (E : Env S) (unsigned : Bytes) (m : List (Bytes × JV)) (s sig : Bytes)
+    (ref : Ref.Ref) (pk : S.PubKey) (sk : S.SecKey)
+    (hm : unmarshalMap (trimRightSpace unsigned) = some m)
+    (hs : lookup kCamliSigner m = some (.str s))
+    (hr : Ref.parse E.tbl s true = some ref)
+    (hf : E.fetch (Ref.toText ref) = .key pk)
+    (hsk : E.secret pk = some sk)
+    (hsig : stripArmor (S.signArmored sk (trimRightSpace unsigned).dropLast) = .ok sig) :
+    E.sign unsigned = .ok (assemble (trimRightSpace unsigned).dropLast sig) := by
+  have hlast := trimmed_obj_last unsigned m (unmarshalMap_obj _ _ hm (lookup_ne_nil _ _ _ hs))
+  simp only [kCamliSigner] at hs
+  unfold Env.sign Pk.JsonSign.sign
+  simp [hm, hs, strOf, hr, hf, hlast, hsk, hsig]
 
 /-! ## sign, then verify -/
 
@@ -419,6 +452,10 @@ BP nor the signer, and the document still verifies -/
 example : toyEnv.verify toySpaced = ⟨none, some toyPayload.length, toySig, some toyRef⟩ := by decide +kernel
 /-- a second member in the signature object is refused (verify.go:91) -/
 example : (toyEnv.verify toyTwoKeys).err = some .sigkeys := by decide +kernel
+/-- hypotheses of C16_sign_succeeds on the toy object: it has a string `camliSigner` that is a blobref
+whose key the environment knows -/
+example : (unmarshalMap (trimRightSpace toyUnsigned)).map (fun m => strOf (lookup kCamliSigner m)) = some toyRef ∧
+    ((Ref.parse toyEnv.tbl toyRef true).map Ref.toText) = some toyRef := by decide +kernel
 /-- errors of `Sign` other than the (unreachable) brace error do occur -/
 example : toyEnv.sign [123, 125] = .error .nosigner := by decide +kernel
 /-- hypotheses of C16_unversioned_signed_doc_rejected: an object without camliVersion is signed … -/
